@@ -109,7 +109,8 @@ def rule_implicit(repo, rule, modules):
         if rec["what"] == "fieldinverse":
             arg = node.args[0] if node.args else None
             txt = norm(arg)
-            ok = plus_iverson(arg) or excludes_zero(rec["conds"], txt)
+            from ..flatten import resolve_locals as _rl
+            ok = plus_iverson(arg) or plus_iverson(_rl(rec["fi"].node, arg)) or excludes_zero(rec["conds"], txt)
         else:
             div = node.right if isinstance(node, ast.BinOp) else None
             txt = norm(div)
